@@ -697,9 +697,6 @@ def _pow(ex, args, n):
     return r
 
 
-FMOD = uf('fmod', R, R, R)
-
-
 @free('fmod')
 def _fmod(ex, args, n):
     """std::fmod(x, y) = x - q*y for the integer q = trunc(x / y): same sign as x, smaller in magnitude than y"""
@@ -716,12 +713,6 @@ def _fmod(ex, args, n):
 def _atan2(ex, args, n):
     y, x = real(ex.ev(args[0])), real(ex.ev(args[1]))
     return ATAN2(y, x)
-
-
-@free('fmod')
-def _fmod(ex, args, n):
-    x, y = real(ex.ev(args[0])), real(ex.ev(args[1]))
-    return FMOD(x, y)
 
 
 @free('floor')
@@ -1071,6 +1062,30 @@ def _make_shared(ex, args, n):
             raise Unsupported('make_shared<%s>: no contract and no body for the constructor' % cls)
         ex.calls.inline(ex, dd, c, obj, bound, n)
     return PtrVal(obj, None)
+
+
+from .specfun import COUNT_TRUE
+
+
+@free('count')
+def _count(ex, args, n):
+    """std::count(first, last, true) over a whole vector<bool>: the number of true entries, as the spec function COUNT_TRUE
+    (COUNT_TRUE(a, 0) = 0, COUNT_TRUE(a, k+1) = COUNT_TRUE(a, k) + [a[k]]); range and the all-false case are stated here"""
+    a, b = ex.ev(args[0]), ex.ev(args[1])
+    if not (isinstance(a, PtrVal) and isinstance(b, PtrVal) and a.path is not None and a.path.same(b.path)):
+        raise Unsupported('std::count over non-contiguous range')
+    p, v = _vec_at(ex, a.path)
+    val = ex.ev(args[2])
+    if v.el[0] != 'bool' or not (z3.is_true(z3.simplify(val)) if z3.is_expr(val) else val is True):
+        raise Unsupported('std::count of this element type / value')
+    ex.oblige('bounds', 'range', z3.And(a.off == 0, b.off == v.len), n)
+    r = COUNT_TRUE(v.data, v.len)
+    k = z3.Int(ex.fresh_name('k!ct'))
+    ex.assume(z3.And(r >= 0, r <= v.len))
+    ex.assume(z3.Implies(z3.ForAll([k], z3.Implies(z3.And(0 <= k, k < v.len), z3.Not(z3.Select(v.data, k)))), r == 0))
+    ex.assume(z3.Implies(r == 0, z3.ForAll([k], z3.Implies(z3.And(0 <= k, k < v.len), z3.Not(z3.Select(v.data, k))))))
+    ex.assumed.add('std::count(first, last, true): the number of true entries (between 0 and the length; 0 exactly when there is none)')
+    return r
 
 
 @free('distance')
